@@ -1,4 +1,4 @@
-import DaskModel.Lemmas.MergeAsof
+import DaskModel.Lemmas.MergeAsofWalk
 import DaskModel.Lemmas.TruthfulPaths
 /-! # C39 — merge_asof (theorems)
 
@@ -33,6 +33,53 @@ theorem asof_plan_eq_global (o : Opts) (L R : List Nat) (plan : List (List Piece
   rcases this.2 with h | ⟨h1, h2⟩
   · exact Or.inl h
   · exact Or.inr ⟨by omega, h2⟩
+
+/-- **`pair_partitions` is total and certified**: for all non-decreasing division vectors of at least one partition
+    each, the walk returns (no IndexError, the fuel suffices) and its plan passes the certificate `planOK` -/
+theorem pairPartitions_ok (L R : List Nat) (hL : 2 ≤ L.length) (hR : 2 ≤ R.length) (sL : L.Pairwise (· ≤ ·))
+    (sR : R.Pairwise (· ≤ ·)) : ∃ plan, pairPartitions L R = some plan ∧ planOK L R plan = true := by
+  obtain ⟨n, hn⟩ : ∃ n, L.length = n + 1 := ⟨L.length - 1, by omega⟩
+  obtain ⟨m, hm⟩ : ∃ m, R.length = m + 1 := ⟨R.length - 1, by omega⟩
+  have hm1 : 1 ≤ m := by omega
+  have hn1 : 1 ≤ n := by omega
+  unfold pairPartitions
+  rw [getD_get? L 0 (by omega)]
+  simp only [hn, hm, Nat.add_sub_cancel]
+  obtain ⟨jj, hinit, hjm, hprev, hnext⟩ := initLoop_spec R (gv L 0) m hm (m + 1 + 1) 0 (by omega) (by intro h; omega) (by omega)
+  rw [hinit]
+  simp only []
+  have inv : WalkInv L R n m 0 jj [] [] := by
+    refine ⟨by omega, rfl, rfl, fun _ => hjm, ?_, by intro _ q hq; simp at hq, fun _ h => Nat.le_of_lt (hnext h), ?_⟩
+    · intro _
+      show max (gv L 0) (if jj = 0 then 0 else gv R (jj - 1)) = gv L 0
+      by_cases hz : jj = 0
+      · simp [hz]
+      · simp only [hz, if_false]
+        exact Nat.max_eq_left (hprev (by omega))
+    · intro _ h1
+      have h01 := sorted_getD_le L sL 0 (0 + 1) (by omega) (by omega)
+      have := hprev h1
+      omega
+  obtain ⟨plan, hplan, hlen, hok⟩ := pairLoop_ok L R n m hn hm hm1 sL sR (n + 1 + (m + 1) + 2) 0 jj [] [] inv (by omega)
+  refine ⟨plan, hplan, ?_⟩
+  unfold planOK
+  simp only [hn, hm, Nat.add_sub_cancel, hlen, beq_self_eq_true, Bool.true_and]
+  exact hok
+
+/-- **merge_asof_eq_global** — frames with truthful known divisions (at least one partition each, left partitions in key
+    order): `pair_partitions` returns a plan, and the partition-wise padded `merge_asof` along that plan gives every left
+    row, in order, exactly the match it has in the whole right frame — for every direction, tolerance and
+    `allow_exact_matches`. (pandas' per-row semantics `asof` is the specification; `by=` is not modelled.) -/
+theorem merge_asof_eq_global (o : Opts) (L R : List Nat) (Lp Rp : List (List Row))
+    (hL : Truthful (fun r : Row => r.1) L Lp) (hR : Truthful (fun r : Row => r.1) R Rp)
+    (hLs : ∀ P ∈ Lp, Repart.KeySorted (fun r : Row => r.1) P) (hLn : Lp ≠ []) (hRn : Rp ≠ []) :
+    ∃ plan, pairPartitions L R = some plan ∧ planOut o plan Lp Rp = globalOut o Lp Rp := by
+  have h1 : 2 ≤ L.length := by
+    have := hL.1; have : 0 < Lp.length := List.length_pos_iff.mpr hLn; omega
+  have h2 : 2 ≤ R.length := by
+    have := hR.1; have : 0 < Rp.length := List.length_pos_iff.mpr hRn; omega
+  obtain ⟨plan, hplan, hok⟩ := pairPartitions_ok L R h1 h2 hL.2.1 hR.2.1
+  exact ⟨plan, hplan, asof_plan_eq_global o L R plan Lp Rp hL hR hLs hok⟩
 
 /-! non-vacuity: a plan of the real walk passes the certificate, frames that are truthful, and what comes out -/
 example : pairPartitions [2, 5, 8] [0, 3, 8, 12] =
